@@ -173,6 +173,9 @@ type DiskInfo struct {
 	Voters  []string `json:"voters"`
 	Holders []string `json:"holders"`
 	When    string   `json:"when"` // apply | ack
+	// Configs: voter sets of the configurations running nodes report at this instant (dynamic
+	// membership); empty for static membership, where Voters is the fixed voter set
+	Configs [][]string `json:"configs,omitempty"`
 }
 
 // Event is one element of the recorded history (DESIGN.md appendix A).
